@@ -148,6 +148,8 @@ pub struct Oracle {
     // inbound side (C04)
     pub expect_deliver: Vec<InMsg>,
     pub in_qos2_pending: Vec<u16>,
+    /// identifiers whose PUBREL found them pending and that have not been answered with a successful PUBCOMP yet
+    pub pubcomp_success_due: Vec<u16>,
     pub owed_acks: Vec<OwedAck>,
     /// acknowledgements completely written: (kind, id, connection, a flush completed afterwards).
     /// Until a flush has completed the client cannot know whether they left the machine, so it may
@@ -235,6 +237,7 @@ impl Oracle {
             local_max_inflight: 8,
             expect_deliver: Vec::new(),
             in_qos2_pending: Vec::new(),
+            pubcomp_success_due: Vec::new(),
             owed_acks: Vec::new(),
             sent_acks: Vec::new(),
             delivered: 0,
@@ -358,6 +361,7 @@ impl Oracle {
         self.rec_counter.hash(h);
         self.expect_deliver.hash(h);
         self.in_qos2_pending.hash(h);
+        self.pubcomp_success_due.hash(h);
         self.owed_acks.hash(h);
         self.sent_acks.hash(h);
         // violations already found do not influence future ones, but two paths that differ in what
@@ -1232,6 +1236,9 @@ impl Oracle {
                 }
             }
             CPacket::Ack(a) => {
+                if a.kind == AckKind::PubComp && a.reason < 0x80 {
+                    self.pubcomp_success_due.retain(|p| *p != a.pid);
+                }
                 let pos = self
                     .owed_acks
                     .iter()
@@ -1369,6 +1376,7 @@ impl Oracle {
                         }
                         self.epoch += 1;
                         self.in_qos2_pending.clear();
+                        self.pubcomp_success_due.clear();
                         self.owed_acks.clear();
                         self.sent_acks.clear();
                     }
@@ -1454,6 +1462,9 @@ impl Oracle {
                     let known = self.in_qos2_pending.iter().position(|p| p == pid);
                     if let Some(k) = known {
                         self.in_qos2_pending.remove(k);
+                        if !self.pubcomp_success_due.contains(pid) {
+                            self.pubcomp_success_due.push(*pid);
+                        }
                     }
                     self.owed_acks.push(OwedAck {
                         kind: AckKind::PubComp,
